@@ -51,6 +51,8 @@ pub struct FnSig {
     pub fuel: bool,
     /// type parameters (in order) and whether each needs an ordering (`K: Ord`)
     pub generics: Vec<(String, bool)>,
+    /// names of the external-function parameters the function takes (see `Item::Extern`)
+    pub externs: Vec<String>,
 }
 
 #[derive(Clone, Debug)]
@@ -109,6 +111,8 @@ pub fn paren(s: &str) -> String {
 }
 
 pub struct Global {
+    /// external pure functions of the current unit: (rust name, lean parameter name, type)
+    pub externs: Vec<(String, String, Ty)>,
     /// enum name -> variants (name, payload types)
     pub enums: HashMap<String, Vec<(String, Vec<Ty>)>>,
     /// structs declared `#[repr(C, packed)]` (size_of / pread are only modelled for these)
@@ -448,6 +452,7 @@ pub fn translate_unit(src: &Path, unit: &Unit, g: &mut Global) -> R<String> {
     let text = fs::read_to_string(&path).map_err(|e| format!("unsupported: cannot read {}: {}", path.display(), e))?;
     let file = syn::parse_file(&text).map_err(|e| format!("unsupported: parse error in {}: {}", unit.file, e))?;
     g.ns = unit.module.to_string();
+    g.externs.clear();
     let mut out = String::new();
     out.push_str("import SmVerif.Rs.Prelude\n");
     for imp in &unit.imports {
@@ -591,6 +596,12 @@ pub fn translate_unit(src: &Path, unit: &Unit, g: &mut Global) -> R<String> {
                 out.push_str(&format!("/- `{}` with its generic parameters read as ({}) -/\n", func_name, params));
                 out.push_str(&text);
                 out.push('\n');
+            }
+            Item::Extern(name, sig_text) => {
+                let t: syn::Type = syn::parse_str(sig_text).map_err(|e| format!("internal: extern type: {}", e))?;
+                let ty = rust_ty(&t)?;
+                out.push_str(&format!("/- external function `{}` ({}): an explicit parameter of every function below -/\n\n", name, sig_text));
+                g.externs.push((name.to_string(), sanitize(name), ty));
             }
             Item::Mirror(name, text) => {
                 out.push_str(&format!("/- mirror (written by hand in tools/rs2lean/src/targets.rs, part of the trusted base): {} -/\n{}\n\n", name, text));
@@ -756,7 +767,7 @@ pub fn signature(_g: &Global, f: &syn::ItemFn, module: &str) -> R<FnSig> {
         syn::ReturnType::Default => Ty::Unit,
         syn::ReturnType::Type(_, t) => rust_ty(t)?,
     };
-    Ok(FnSig { lean: format!("SmVerif.Gen.{}.{}", module, sanitize(&f.sig.ident.to_string())), params, ret, fuel: false, generics })
+    Ok(FnSig { lean: format!("SmVerif.Gen.{}.{}", module, sanitize(&f.sig.ident.to_string())), params, ret, fuel: false, generics, externs: _g.externs.iter().map(|(_, l, _)| l.clone()).collect() })
 }
 
 /// Lean return type of a translated function
@@ -809,7 +820,7 @@ pub fn translate_fn_named(g: &Global, f: &syn::ItemFn, module: &str, owner: Opti
             pass2: pass == 1,
             in_loop_fn: false,
             generic_binders: sig.generics.iter().map(|(n, ord)| format!(" {{{} : Type}} [DecidableEq {}]{}", n, n, if *ord { format!(" (lt_{} : {} → {} → Bool)", n, n, n) } else { String::new() })).collect(),
-            generic_args: sig.generics.iter().filter(|(_, o)| *o).map(|(n, _)| format!(" lt_{}", n)).collect(),
+            generic_args: sig.generics.iter().filter(|(_, o)| *o).map(|(n, _)| format!(" lt_{}", n)).collect::<String>() + &g.externs.iter().map(|(_, l, _)| format!(" {}", l)).collect::<String>(),
             bit_views: HashMap::new(),
             enclosing_label: None,
         };
@@ -838,6 +849,9 @@ pub fn translate_fn_named(g: &Global, f: &syn::ItemFn, module: &str, owner: Opti
         }
         let mut ps = String::new();
         ps.push_str(&cx.generic_binders);
+        for (_, l, t) in &g.externs {
+            ps.push_str(&format!(" ({} : {})", l, lean_ty(t)));
+        }
         if fuel {
             ps.push_str(" (fuel : Nat)");
         }
